@@ -953,6 +953,24 @@ where
     }
 }
 
+/// Returns the elements of an owned array as a vector in logical order
+///
+/// `Array::into_raw_vec` returns the whole allocation. An array which has been sliced in place
+/// (e.g. with `slice_move` or `slice_collapse`) still owns the elements outside of the slice, so
+/// the elements which do not belong to the array have to be removed from its raw vector.
+fn into_standard_vec<A, D: Dimension>(array: Array<A, D>) -> Vec<A> {
+    let len = array.len();
+    if len == 0 || std::mem::size_of::<A>() == 0 || !array.is_standard_layout() {
+        return array.into_iter().collect();
+    }
+    let first = array.as_ptr() as usize;
+    let mut vec = array.into_raw_vec();
+    let offset = (first - vec.as_ptr() as usize) / std::mem::size_of::<A>();
+    vec.truncate(offset + len);
+    vec.drain(..offset);
+    vec
+}
+
 impl<F, E, I: TargetDim> Dataset<F, E, I> {
     /// Split dataset into two disjoint chunks
     ///
@@ -993,7 +1011,7 @@ impl<F, E, I: TargetDim> Dataset<F, E, I> {
         let target_names = self.target_names().to_vec();
 
         // split records into two disjoint arrays
-        let mut array_buf = self.records.into_raw_vec();
+        let mut array_buf = into_standard_vec(self.records);
         let second_array_buf = array_buf.split_off(n1 * nfeatures);
 
         let first = Array2::from_shape_vec((n1, nfeatures), array_buf).unwrap();
@@ -1002,7 +1020,7 @@ impl<F, E, I: TargetDim> Dataset<F, E, I> {
         // split targets into two disjoint Vec
         let dim1 = self.targets.raw_dim().nsamples(n1);
         let dim2 = self.targets.raw_dim().nsamples(n2);
-        let mut array_buf = self.targets.into_raw_vec();
+        let mut array_buf = into_standard_vec(self.targets);
         let second_array_buf = array_buf.split_off(dim1.size());
 
         let first_targets = Array::from_shape_vec(dim1, array_buf).unwrap();
@@ -1010,7 +1028,7 @@ impl<F, E, I: TargetDim> Dataset<F, E, I> {
 
         // split weights into two disjoint Vec
         let second_weights = if self.weights.len() == n1 + n2 {
-            let mut weights = self.weights.into_raw_vec();
+            let mut weights = into_standard_vec(self.weights);
 
             let weights2 = weights.split_off(n1);
             self.weights = Array1::from(weights);
